@@ -11,6 +11,7 @@ inline char variant_which(const Ctx &c) { return c.prop("C17") ? 'N' : 'B'; }
 template<class K, size_t Eps, size_t EpsRec, class Floating, int Mode = 0>
 void comp_case(Ctx &c) {
     using Idx = pgm::CompressedPGMIndex<K, Eps, EpsRec, Floating>;
+    if (Mode == 4 && !c.given) { run_sweep<K, Idx, Eps>(c, variant_which(c)); return; }
     constexpr bool Huge = Mode == 1;
     bool chunked = Mode == 0 && c.case_idx % 64 == 63 && sizeof(K) >= 4;
     if (Mode == 2 && !c.given) {
@@ -29,6 +30,8 @@ void comp_case(Ctx &c) {
     VF_REGISTER(std::string("comp/") + ::vf::KT<K>::name() + ",e" #E ",er" #ER "," #F "#enum", (&::vf::comp_case<K, E, ER, F, 2>), 8.6)
 #define VF_COMP_BIG(K, E, ER, F)                                                                                       \
     VF_REGISTER(std::string("comp/") + ::vf::KT<K>::name() + ",e" #E ",er" #ER "," #F "#big", (&::vf::comp_case<K, E, ER, F, 3>), 0.0041)
+#define VF_COMP_SWEEP(K, E, ER, F)                                                                                     \
+    VF_REGISTER(std::string("comp/") + ::vf::KT<K>::name() + ",e" #E ",er" #ER "," #F "#sweep", (&::vf::comp_case<K, E, ER, F, 4>), 0.0003)
 #define VF_COMP_HUGE(K, E, ER, F)                                                                                      \
     VF_REGISTER(std::string("comp/") + ::vf::KT<K>::name() + ",e" #E ",er" #ER "," #F "#huge", (&::vf::comp_case<K, E, ER, F, 1>), 0.0003)
 
@@ -59,6 +62,7 @@ template<size_t Eps, uint8_t BitSize> struct BucketExtra : NoExtra {
 template<class K, size_t Eps, size_t Top, uint8_t BitSize, class Floating, int Mode = 0>
 void bucket_case(Ctx &c) {
     using Idx = pgm::BucketingPGMIndex<K, Eps, Top, BitSize, Floating>;
+    if (Mode == 4 && !c.given) { run_sweep<K, Idx, Eps>(c, variant_which(c)); return; }
     constexpr bool Huge = Mode == 1;
     bool chunked = Mode == 0 && c.case_idx % 64 == 63 && sizeof(K) >= 4;
     if (Mode == 2 && !c.given) {
@@ -100,6 +104,9 @@ void bucket_case(Ctx &c) {
 #define VF_BUCKET_BIG(K, E, TOP, BITS, F)                                                                              \
     VF_REGISTER(std::string("bucket/") + ::vf::KT<K>::name() + ",e" #E ",top" #TOP ",bits" #BITS "," #F "#big",       \
                 (&::vf::bucket_case<K, E, TOP, BITS, F, 3>), 0.0041)
+#define VF_BUCKET_SWEEP(K, E, TOP, BITS, F)                                                                            \
+    VF_REGISTER(std::string("bucket/") + ::vf::KT<K>::name() + ",e" #E ",top" #TOP ",bits" #BITS "," #F "#sweep",     \
+                (&::vf::bucket_case<K, E, TOP, BITS, F, 4>), 0.0003)
 #define VF_BUCKET_HUGE(K, E, TOP, BITS, F)                                                                             \
     VF_REGISTER(std::string("bucket/") + ::vf::KT<K>::name() + ",e" #E ",top" #TOP ",bits" #BITS "," #F "#huge",      \
                 (&::vf::bucket_case<K, E, TOP, BITS, F, 1>), 0.0003)
@@ -127,6 +134,7 @@ struct EfExtra : NoExtra {
 template<class K, size_t Eps, class Floating, int Mode = 0>
 void ef_case(Ctx &c) {
     using Idx = EfProbe<K, Eps, Floating>;
+    if (Mode == 4 && !c.given) { run_sweep<K, Idx, Eps>(c, variant_which(c)); return; }
     constexpr bool Huge = Mode == 1;
     bool chunked = Mode == 0 && c.case_idx % 64 == 63 && sizeof(K) >= 4;
     if (Mode == 2 && !c.given) {
@@ -189,6 +197,8 @@ void ef_case(Ctx &c) {
     VF_REGISTER(std::string("ef/") + ::vf::KT<K>::name() + ",e" #E "," #F "#enum", (&::vf::ef_case<K, E, F, 2>), 8.6)
 #define VF_EF_BIG(K, E, F)                                                                                             \
     VF_REGISTER(std::string("ef/") + ::vf::KT<K>::name() + ",e" #E "," #F "#big", (&::vf::ef_case<K, E, F, 3>), 0.0041)
+#define VF_EF_SWEEP(K, E, F)                                                                                           \
+    VF_REGISTER(std::string("ef/") + ::vf::KT<K>::name() + ",e" #E "," #F "#sweep", (&::vf::ef_case<K, E, F, 4>), 0.0003)
 #define VF_EF_HUGE(K, E, F)                                                                                            \
     VF_REGISTER(std::string("ef/") + ::vf::KT<K>::name() + ",e" #E "," #F "#huge", (&::vf::ef_case<K, E, F, 1>), 0.0003)
 #define VF_EF(K, E, F)                                                                                                 \
